@@ -120,6 +120,18 @@ func C15(c *Ctx) int {
 			perturb(filepath.Base(f), b)
 		}
 	}
+	// a document rich in olive extension data: headers / properties / results with literal values,
+	// with references, and with both
+	{
+		src := drive.ValueProcessXML()
+		if defs, err := schema.Parse([]byte(src)); err == nil {
+			c.Evaluations++
+			if _, rec := drive.RoundTrip(defs, src); !rec.Ok {
+				c.Reject(fs, Rejection{Prop: "C15", Tags: []string{"olive-items"}, Ev: "roundtrip", Detail: "olive items document: " + rec.Kind}, map[string]any{"differences": rec.Kind})
+			}
+		}
+		perturb("olive-items", []byte(src))
+	}
 	c.Extra["attribute_variants"] = variants
 	c.Extra["bundled_files"] = len(files)
 	c.Extra["programs"] = len(ps)
